@@ -172,7 +172,9 @@ def build_lib(cfg, pool=None):
 
 def kit_hash():
     m = hashlib.sha256()
-    for p in sorted(glob.glob(os.path.join(VERIF, "harness", "kit", "*.h"))):
+    # kit headers and harness-local headers (e.g. c05_prog.h, shared by c05.cpp and c05_fuzz.cpp)
+    for p in sorted(glob.glob(os.path.join(VERIF, "harness", "kit", "*.h")) + glob.glob(os.path.join(VERIF, "harness", "*.h"))):
+        m.update(os.path.basename(p).encode())
         m.update(_read(p))
     return m.hexdigest()[:24]
 
